@@ -51,7 +51,7 @@ Space(kind) ==
     [] kind = "PSwitch"   -> [rs |-> Scalar, ig |-> IgForms, iis |-> Opt3, rt |-> Opt3, limits |-> LimForms]
     [] kind = "PMux"      -> [rs |-> Scalar \cup {"list", "list_neg", "list_str"}, ig |-> IgForms, iis |-> Opt3, rt |-> Opt3,
                               limits |-> {"absent", "ok", "len3"}]
-    [] kind = "Rectifier" -> [vdrop |-> {"absent", "zero", "pos", "neg", "t1", "t2", "t_missing", "t_nonmono", "t_mis_io", "t1_negentry", "t1_neg", "t2_negaxis"},
+    [] kind = "Rectifier" -> [vdrop |-> {"absent", "zero", "pos", "neg", "t1", "t2", "t_missing", "t_nonmono", "t_mis_io", "t1_negentry", "t1_neg", "t2_neg", "t2_negaxis"},
                               rs |-> Scalar \cup {"list_str", "str"}, ig |-> {"absent", "pos", "neg", "t1", "t_negentry", "t1_negentry", "t_mis_vi"},
                               iq |-> Opt3, rt |-> Opt3, limits |-> {"absent", "ok", "notlist"}]
 
